@@ -49,5 +49,15 @@ func targeted() []Spec {
 		{Name: "f1.sysl", Imports: []string{"f2"}, ImpIdx: []int{2}, Blocks: []Block{{App: "A0", Items: []interface{}{t2, e1, all}}}},
 		{Name: "f2.sysl", Blocks: []Block{{App: "A0", Items: []interface{}{e2, t1b, patch2b}}}},
 	}}
-	return []Spec{one, two, three}
+	// an endpoint and a REST method re-opened (in another file, on earlier lines) with annotations only
+	long := EpD{Name: "E5", Stmts: []Stmt{{Kind: sText, Text: "work"}, {Kind: sText, Text: "ping"}, {Kind: sText, Text: "log"}, {Kind: sText, Text: "validate"},
+		{Kind: sIf, Text: "c1", Body: txt("do the thing")}}}
+	pad := TypeD{Name: "T9", Fields: []Field{{Name: "f0", Type: "int"}, {Name: "f1", Type: "int"}, {Name: "f2", Type: "int"}}}
+	four := Spec{Files: []FileD{
+		{Name: "f0.sysl", Imports: []string{"f1"}, ImpIdx: []int{1}, Blocks: []Block{{App: "A0", Items: []interface{}{pad, pad, long,
+			Rest{Path: "/r", Name: "/r", Methods: []Method{{Verb: "PATCH", Stmts: []Stmt{{Kind: sText, Text: "work"}, {Kind: sText, Text: "store it now"}}}}}}}}},
+		{Name: "f1.sysl", Blocks: []Block{{App: "A0", Items: []interface{}{EpD{Name: "E5", Annos: []Anno{{Name: "late", Val: "x"}}},
+			Rest{Path: "/r", Name: "/r", Methods: []Method{{Verb: "PATCH", Annos: []Anno{{Name: "late2", Val: "y"}}}}}}}}},
+	}}
+	return []Spec{one, two, three, four}
 }
